@@ -174,9 +174,15 @@ def run(ck: core.Check):
              "runtime_refused": 0, "max_objs": 0}
     mism = 0
     k = 0
+    recent = []  # the last builds of this process: a history-dependent failure needs them to replay
     for prog, reqs in cases:
         env = lf.realize(prog)
         stats["max_objs"] = max(stats["max_objs"], prog["n"])
+        # hypothesis WF of discover_all_arguments_spec: every reference points to an older object
+        for i_, o_ in enumerate(lf.to_objs(prog)):
+            refs = o_["deps"] + [x for b in o_["subs"] for x in b["formals"] + b["results"]]
+            if any(r_ >= i_ for r_ in refs):
+                ck.broken("correspondence", "C03 generated program violates WF (reference to a newer object)", str(o_))
         for req in reqs:
             m = model[k]
             k += 1
@@ -202,7 +208,10 @@ def run(ck: core.Check):
             ck.sample({"request": req, "outcome": oc, "expected": exp if exp is None else exp[0]}, 4)
             for key, what in bad:
                 small = shrink(prog, req, key, lambda p, r: oracle_inproc(p, r, env, with_values=key.endswith("value"), feed_seed=k)[0])
-                ck.failure(key, what, {"prog": prog, "req": small, "mode": "inproc", "feed_seed": k})
+                ck.failure(key, what, {"prog": prog, "req": small, "mode": "inproc", "feed_seed": k,
+                                       "prelude": [{"prog": p_, "reqs": [r_]} for p_, r_ in recent[-2:]]})
+            recent.append((prog, req))
+            del recent[:-2]
             # correspondence
             if m is not None:
                 if "error" in m:
@@ -274,15 +283,22 @@ def run(ck: core.Check):
 def replay(ck: core.Check, doc) -> bool:
     case = doc["case"]
     prog, req = case["prog"], case["req"]
+    # builds that preceded the failing one in the original process (matters for history-dependent faults)
+    for pre in case.get("prelude", []):
+        env = lf.realize(pre["prog"])
+        for r in pre["reqs"]:
+            lf.run_build(env, r)
     bad, _ = oracle_inproc(prog, req, None, with_values=True, feed_seed=case.get("feed_seed", 0))
     for key, what in bad:
         print(f"{key}: {what}")
     if bad:
         return True
-    if case.get("mode") == "fresh":
-        res = run_fresh(ck, [{"prog": prog, "reqs": [req], "salt": case.get("salt", 0)}], case.get("hashseeds", [0, 1, 2, 3]), "replay")
-        for hs, rs in res.items():
-            r = rs[0][0]
+    # orders taken from sets vary with object addresses: look at several fresh interpreters too
+    cases = [{"prog": prog, "reqs": [req], "salt": case.get("salt", 0) + 13 * j} for j in range(4)]
+    res = run_fresh(ck, cases, case.get("hashseeds", [0, 1, 2, 3])[:8], "replay")
+    for hs, rs in res.items():
+        for one in rs:
+            r = one[0]
             got = ("err", r["err"]) if "err" in r else ("ok", (r["inputs"], r["outputs"]))
             b = judge(prog, req, *got)
             for key, what in b:
